@@ -880,12 +880,18 @@ func (c *Ctx) c07Helpers() {
 
 // c07NarrowArith: in parsers, arithmetic carried out in uint8/uint16 must not feed a length comparison or a slice bound
 // (the product / sum wraps modulo 256 / 65536 before it is widened).
-func (c *Ctx) c07NarrowArith() {
+func (c *Ctx) c07NarrowArith() { c.narrowArith(nil, 30) }
+
+// narrowArith: shared by C03, C07, C08. keep == nil: all parser functions of protocol/model.
+func (c *Ctx) narrowArith(keep func(fn *ssa.Function) bool, minFns int) {
 	R := c.R
 	R.Rules["S.narrow-arith"] = "in the body parsers, a multiplication / addition / shift carried out in uint8 or uint16 does not flow into a comparison with a length or into a slice bound or index: it wraps before it is widened, so bodies whose count field is large are rejected or mis-sliced although they are consistent"
 	n := 0
 	for _, fn := range c.RepoFuncs("protocol/model") {
 		if !strings.HasPrefix(strings.ToLower(fn.Name()), "parse") {
+			continue
+		}
+		if keep != nil && !keep(fn) {
 			continue
 		}
 		n++
@@ -967,8 +973,8 @@ func (c *Ctx) c07NarrowArith() {
 			R.Add("S.narrow-arith", shortFn(fn), c.P.RelPos(fn.Pos()), report.Discharged, "")
 		}
 	}
-	if n < 30 {
-		R.Fatal("only %d parser functions found in protocol/model (anchor)", n)
+	if n < minFns {
+		R.Fatal("only %d parser functions found in protocol/model (anchor, expected at least %d)", n, minFns)
 	}
 }
 
@@ -993,4 +999,61 @@ func mentionsLen(v ssa.Value, depth int) bool {
 		}
 	}
 	return false
+}
+
+// C07ListDebug prints what the append hooks see inside encoder loops (debug).
+func C07ListDebug(p *load.Program, typ string) {
+	c := &Ctx{P: p, Tier: "quick"}
+	enc := c.P.Method("protocol/model", typ, "Encode")
+	parse := c.P.Method("protocol/model", typ, "Parse")
+	a := c.NewE1(pkgOf(enc), false)
+	c.c07Pure(a)
+	a.LogWrites = true
+	st := absint.NewState()
+	recv := a.Unknown(enc.Params[0].Type(), "t", st)
+	a.NameFields(st, recv, enc.Params[0].Type(), "", 0)
+	a.OnAppend = func(f *ssa.Function, site ssa.Instruction, st *absint.State, dst *absint.Slice, src absint.Term) {
+		segs, ok := a.ByteLayout(st, dst)
+		fmt.Printf("W append %s dst.len=%s dstsegs(ok=%v)=%v src=%s\n", c.P.RelPos(site.Pos()), dst.Len, ok, segs, a.Render(src))
+		if ss, isS := src.(*absint.Slice); isS {
+			for _, e := range ss.Base.Elems {
+				desc := ""
+				if iv, isI := e.(absint.Int); isI {
+					if at := iv.L.SingleAtom(); at != nil {
+						desc = at.Desc + " op=" + at.Op
+					}
+				}
+				fmt.Printf("     elem %s  key=%s desc=%q\n", a.Render(e), e.TKey(), desc)
+			}
+		}
+	}
+	a.OnExternalResult = func(f *ssa.Function, site ssa.Instruction, name string, st *absint.State, args []absint.Term, val absint.Term) {
+		if strings.Contains(name, "AppendUint") {
+			s, _ := val.(*absint.Slice)
+			segs, ok := a.ByteLayout(st, s)
+			fmt.Printf("W %s %s -> segs(ok=%v)=%v val=%s\n", name, c.P.RelPos(site.Pos()), ok, segs, a.Render(args[len(args)-1]))
+		}
+	}
+	a.RunEntry(enc, st, []absint.Term{recv}, nil)
+	// reader
+	ra := c.NewE1(pkgOf(parse), false)
+	c.c07Pure(ra)
+	rst := absint.NewState()
+	var args []absint.Term
+	for _, p := range parse.Params {
+		args = append(args, ra.Unknown(p.Type(), p.Name(), rst))
+	}
+	preJTMsg(ra, parse, rst, args)
+	ra.OnAppend = func(f *ssa.Function, site ssa.Instruction, st *absint.State, dst *absint.Slice, src absint.Term) {
+		fmt.Printf("R append %s src=%s\n", c.P.RelPos(site.Pos()), ra.Render(src))
+		if ss, isS := src.(*absint.Slice); isS {
+			for _, e := range ss.Base.Elems {
+				fmt.Printf("     elem %s\n", ra.Render(e))
+				for k, v := range structFields(e) {
+					fmt.Printf("        .%s = %s\n", k, ra.Render(v))
+				}
+			}
+		}
+	}
+	ra.RunEntry(parse, rst, args, nil)
 }
